@@ -9,15 +9,15 @@ PY = '/venv/bin/python'
 MC = 'model_checking'
 CHECKS = {
     'C20': (MC, 'stateless exhaustive schedule enumeration (CHESS-style, preemption-bounded) of the real AsyncRunner on real threads under a controlled scheduler (shimmed threading/time + sys.settrace statement-level preemption)',
-            'Nine drivers (start/queue/await/stop, delayed events and self-termination, pause/unpause, stop while paused, execute_all, two clients, stop during an execute_all cycle, pause racing stop, events queued while paused then stop); for each, every schedule of the runner thread against the client thread(s) with at most 1-3 (quick) / 2-4 (thorough) preemptions is executed on the real code and judged: no deadlock/livelock, executed steps == steps handed to after_execute, events consumed exactly once and FIFO, hooks once, pause/stop semantics.',
+            'Twelve drivers (start/queue/await/stop, delayed events and self-termination, pause/unpause, stop while paused, execute_all, two clients, stop during an execute_all cycle, pause racing stop, events queued while paused then stop, a delayed event becoming due while the client queues, a refused second start on a paused runner, one Event object queued three times); for each, every schedule of the runner thread against the client thread(s) with at most 1-3 (quick) / 2-4 (thorough) preemptions is executed on the real code and judged: no deadlock/livelock, executed steps == steps handed to after_execute, events consumed exactly once and FIFO, hooks once, pause/stop semantics.',
             'GIL modelled at statement granularity in six functions and at Event/Thread/sleep operations; interval=0, virtual time; preemption-bounded, not all schedules.  Both defects it found in the unchanged tree (F11 queue insert race, F13 pause vs stop deadlock) are repaired; the queue lock introduced by the repair is shimmed too.',
             '§4 C20'),
     'C19': (MC, 'exhaustive enumeration of bounded scenarios (all action blocks x all predefined then-steps x argument domains) run through execute_bdd, against an oracle driving a plain Interpreter',
-            'Every scenario made of a when-block of <=2 predefined steps (optionally after a given step, followed by a given step, or as second block after a then) and one then-step of every predefined pattern and argument (true and false assertions in similar numbers) is executed by execute_bdd on two charts; each step status from behave\'s JSON report must equal the truth of the asserted fact computed from the macro steps / state of a plain Interpreter fed the same actions; sismic.testing predicates are compared with the macro steps; the exit code must reflect the verdicts.',
+            'Every scenario made of a when-block of <=2 (thorough: 3) predefined steps (optionally after a given step, followed by a given step, or as second block after a then) and one then-step of every predefined pattern and argument (true and false assertions in similar numbers) is executed by execute_bdd on two charts; each step status from behave\'s JSON report must equal the truth of the asserted fact computed from the macro steps / state of a plain Interpreter fed the same actions; sismic.testing predicates are compared with the macro steps; the exit code must reflect the verdicts.',
             'Two small charts and the listed action/argument alphabets; behave stops a scenario at the first failure so each when-block carries one verdict.',
             '§4 C19'),
     'C15': (MC, 'explicit-state BFS over systems of bound interpreters and callables (bind/detach at any point, also in the middle of a step), lock-step with reference mailboxes',
-            'BFS (depth 5-7) over queue/execute_once/clock/bind/detach on systems of 2 and 3 interpreters with recording callables and a callable that detaches a listener while it is being notified; cycles and self-binding arise by reachability. Each step must consume the predicted event (identity by serial) and report the predicted sent events; the global delivery log of the callables must equal the reference exactly; every state is drained with exactly-once accounting.',
+            'BFS (depth 5-6) over queue/execute_once/clock/bind/detach on systems of 2 and 3 interpreters with recording callables and a callable that detaches a listener while it is being notified; cycles and self-binding arise by reachability. Each step must consume the predicted event (identity by serial) and report the predicted sent events; the global delivery log of the callables must equal the reference exactly; every state is drained with exactly-once accounting.',
             'Trusts the reference mailbox model (80 lines); depth-bounded; <= 2-3 listeners per interpreter.',
             '§4 C15'),
     'C11': (MC, 'exhaustive bounded input enumeration (all skeleton charts x all field kinds; every (field position, string) pair over a YAML-hostile alphabet) plus lock-step BFS of original vs re-imported chart',
@@ -49,24 +49,24 @@ CHECKS = {
             'Differential oracle; guests without final states; code strings are opaque.',
             '§4 C17'),
     'C18': (MC, 'exhaustive enumeration of histories x snapshot boundary x continuations on the real Interpreter; lock-step comparison of twin, pickle-restored, deepcopy-restored and original',
-            'Every op sequence up to depth 3-4 over 9 ops on a chart with __old__ contracts, deep+shallow history, orthogonal state, delayed events and mutable event payloads is snapshotted (pickle, deepcopy) at its end; every continuation of depth 2 is run on a never-snapshotted twin, both restored copies and the original, and compared step by step.',
+            'Every op sequence up to depth 3-4 over 9 ops (from the initial state, and one step shorter from a second start state in which history memories are live) on a chart with __old__ contracts, deep+shallow history, orthogonal state, delayed events and mutable event payloads is snapshotted (pickle, deepcopy) at its end; every continuation of depth 2 is run on a never-snapshotted twin, both restored copies and the original, and compared step by step.',
             'One feature-dense chart; depth-bounded.',
             '§4 C18'),
     'C13': (MC, 'explicit-state BFS over clock moves (between and inside steps), events and execute_once on the real Interpreter, lock-step with a reference time model',
-            'BFS (depth 9-12) over clock advances, clock moves made by a listener or an action in the middle of a step, events and execute_once on two charts using after/idle/time in guards, actions and contracts; the reference entry/idle stamps predict every predicate value, the fired transitions, MacroStep.time, the time seen by code and by the step-started meta-event; SynchronizedClock == Interpreter.time after every operation.',
+            'BFS (depth 8, thorough: until the capped state space is closed) over clock advances, delayed events queued from outside and sent from actions, clock moves made by a listener or an action in the middle of a step, events and execute_once on two charts using after/idle/time in guards, actions and contracts; the reference entry/idle stamps predict every predicate value, the fired transitions, MacroStep.time, the time seen by code and by the step-started meta-event; SynchronizedClock == Interpreter.time after every operation.',
             'Integer times; predicates with d<=3 so ages are capped at 4 in the canonical state; idle() inside a transition\'s own post-side contracts is not constrained.',
             '§4 C13'),
     'C16': (MC, 'explicit-state BFS over sequences of editing operations on the real Statechart against a plain-dict reference editor',
-            'All sequences (depth 2-3) of add/remove/rename/move state and add/remove/rotate transition with valid and invalid arguments from three initial charts, deduplicated by canonical structure; outcome, post-structure, tree/transition/initial/memory soundness, validate() and atomicity of failed edits are compared with a reference editor written from the docstrings.',
-            'Trusts the reference editor (100 lines); history state as root is outside the alphabet (decided by C12).',
+            'All sequences (depth 2-3) of add/remove/rename/move state and add/remove/rotate transition with valid and invalid arguments from four initial charts, deduplicated by canonical structure; outcome, post-structure, tree/transition/initial/memory soundness, validate() and atomicity of failed edits are compared with a reference editor written from the docstrings.',
+            'Trusts the reference editor (100 lines); four initial charts; names drawn from a small pool so that removed names are re-used.',
             '§4 C16'),
     'C05': (MC, 'explicit-state BFS over interleavings of queue/send/clock/execute_once on the real Interpreter, lock-step with a reference model of the two event queues',
             'All interleavings (depth 6-8, <=3 entries per queue) of external/internal queue() with delays 0-2, clock advances and execute_once (with and without an enabled eventless transition) on three sink charts whose fragments send immediate and delayed events; each macro step must consume exactly the event the reference queues predict (identity by serial); at every state a drain proves exactly-once consumption.',
             'Trusts the 60-line reference queue model; overdue entries are treated as equivalent up to their order; exhaustive only up to the stated depth/cap because the state space is infinite.',
             '§4 C05'),
     'C14': (MC, 'explicit-state search over all clock-operation sequences on the real SimulatedClock with a scripted time source, against an exact Fraction reference clock',
-            'Every sequence (depth 7-9) of start/stop/speed/time assignments (accepted and rejected) and real-time increments from a fresh SimulatedClock; after every operation value, exception, monotonicity and speed are compared with an exact reference; states merged only on identical concrete implementation state.',
-            'Real time does not advance inside one clock operation; time is read only through sismic.clock.clock.time. The SynchronizedClock clause is checked inside C13.',
+            'Every sequence (depth 8-11) of start/stop/speed/time assignments (accepted and rejected) and real-time increments from a fresh SimulatedClock; after every operation value, exception, monotonicity and speed are compared with an exact reference; states merged only on identical concrete implementation state.',
+            'Real time does not advance inside one clock operation; time is read only through sismic.clock.clock.time. The SynchronizedClock clause is explored on a chain of three interpreters following each other, a bound property statechart and free observers (depth 8-11), and again at every state of C13.',
             '§4 C14'),
     'C01': (MC, 'exhaustive enumeration of configurations x pending-event situations x guard valuations on the real Interpreter, compared with a reference selection function',
             'Every legal configuration of every skeleton (<=5-6 states) is reached on the real interpreter; in each, every pending-event situation and every guard valuation with <=k true guards over probe transitions of every event/priority class is executed and compared with the documented selection (eventless first, inner-first, priority, guard visibility, event consumed iff used).',
